@@ -3,6 +3,7 @@ package provider
 import (
 	"bufio"
 	"fmt"
+	"io"
 
 	"github.com/pkg/errors"
 	"github.com/yandex/pandora/core"
@@ -49,7 +50,11 @@ var _ AmmoDecoder = &ScanAmmoDecoder{}
 func (d *ScanAmmoDecoder) Decode(ammo core.Ammo) error {
 	for {
 		if !d.scanner.Scan() {
-			return d.scanner.Err()
+			if err := d.scanner.Err(); err != nil {
+				return err
+			}
+			// The scanner reached the end of its input: say so, like every other AmmoDecoder.
+			return io.EOF
 		}
 		chunk := d.scanner.Bytes()
 		err := d.decoder.DecodeChunk(chunk, ammo)
